@@ -31,3 +31,6 @@ def run(check: Check, repo: Repo, tier: str) -> None:
     X.twin_handlers(check, repo, repo.package_modules('execution'))
     X.cancel_aborts(check, repo)
     X.prime_tracked(check, repo, repo.package_modules("execution"))
+    X.shared_trackers(check, repo)
+    X.cancel_catch(check, repo, mods)
+    X.abort_wrap(check, repo)
